@@ -297,12 +297,13 @@ Proof.
 Qed.
 Print Assumptions C02_types_impl_spec_agree_partial.
 
-(* the guard on index / field access is needed:  [][0] == [][0]  is typed bool by the implementation
-   (and accepted by the parser: it ends in the evy panic "index out of bounds"), the specification
-   gives  [][0]  no type *)
+(* the guard on index / field access is needed:  [][0]  is typed none by the implementation without an
+   error (the expression itself is accepted; only the context it is used in reports an error), the
+   specification gives  [][0]  no type.  Until /repo c2a6828 the
+   witness was  [][0] == [][0]  (typed bool); that comparison is now a type error on both sides. *)
 Theorem C02_types_impl_guard_needed :
-  let e := S.EBin S.OpEq (S.EIndex (S.EArr []) S.ELitNum) (S.EIndex (S.EArr []) S.ELitNum) in
-  (exists n, T.tc e = T.ONode n false /\ T.node_type n = T.TBool) /\ Sp.spec_tc e = None.
+  let e := S.EIndex (S.EArr []) S.ELitNum in
+  (exists n, T.tc e = T.ONode n false /\ T.node_type n = T.TNone) /\ Sp.spec_tc e = None.
 Proof. exact TW.not_empty_base_needed. Qed.
 Print Assumptions C02_types_impl_guard_needed.
 
